@@ -849,7 +849,13 @@ func buildFlagFault(w *World, args []string, kind string, add addFn, feature str
 	switch kind {
 	case "output-path-is-directory", "output-parent-is-file":
 		// the output cannot be written: the run cannot end with status 0 (a write-side
-		// failure: only T, S1 and "must fail" are judged)
+		// failure: only T, S1 and "must fail" are judged). Only when every schema goes to
+		// the default output: with id mappings the default output may never be written.
+		if len(o.SchemaOut) > 0 || len(o.SchemaPkg) > 0 || len(o.SchemaRoot) > 0 {
+			o.RawTrailing = []string{"--no-such-flag"}
+			kind = "unknown-flag"
+			break
+		}
 		if o.Output == "" || o.Output == "-" {
 			o.Output = "out/gen.go"
 		}
